@@ -86,6 +86,10 @@ func genC09(seed uint64, run int, tier string) *RunSpec {
 			e := EditEvent{Step: 1 + int64(r.Intn(int(horizon))), File: f.Name, To: 1}
 			if r.Chance(40) {
 				e.AtCall = 1 + r.Intn(12) // right after the n-th access of the file: inside some task's load of it
+				if r.Chance(50) {
+					// and that task sits on what it has just validated while the others go on with the new version
+					e.StallUnlocks = Pick(r, []int{1, 1, 1, 2, 3})
+				}
 			}
 			spec.Edits = append(spec.Edits, e)
 			if r.Chance(30) {
@@ -301,6 +305,10 @@ func execC09(spec *RunSpec) *Result {
 	}
 	if rep.PoolCross > 0 {
 		res.Cover = append(res.Cover, "probe/object-recycled-across-tasks")
+	}
+	if rep.Stalls > 0 {
+		res.Cover = append(res.Cover, "probe/task-stalled-after-unlock-behind-an-edit")
+		res.addStat("fault_task_stalled_after_edit", rep.Stalls)
 	}
 	if res.Stats["mixed_version_renders"] > 0 {
 		res.Cover = append(res.Cover, "probe/edit-landed-mid-render")
